@@ -38,6 +38,7 @@ def push_hint(t):
             assert(at(board.board, home_row(t), rook_from(t)) == Square::Full(Piece { kind: Rook, color: right_color(t) }));
             assert(castle_succ_ok(board, s, t));
             assert(castle_sound(board, s));
+            lemma_castle_closure(board, s, t);
         }''' % t
 
 SND = '@C01,C02| '
@@ -45,11 +46,12 @@ KEY = '@C05| '
 CMP = '@C01| '
 LO = 'old(new_moves)@.len() as int'
 GC = {
-    'requires': ['wf(board.board)', 'kings_ok(board)', 'rights_ok(board)', 'ep_in_range(board)', KEY + 'key_ok(board, zobrist_hasher)'],
+    'requires': ['legal_position(board)', KEY + 'key_ok(board, zobrist_hasher)'],
     'ensures': [
         'prefix_kept(old(new_moves)@, final(new_moves)@)',
         # sound: every appended board is the result of an allowed castling of the side to move
         SND + 'forall|i: int| old(new_moves)@.len() <= i < final(new_moves)@.len() ==> castle_sound(board, #[trigger] &final(new_moves)@[i])',
+        SND + 'forall|i: int| old(new_moves)@.len() <= i < final(new_moves)@.len() ==> legal_position(#[trigger] &final(new_moves)@[i])',
         KEY + 'forall|i: int| old(new_moves)@.len() <= i < final(new_moves)@.len() ==> key_ok(#[trigger] &final(new_moves)@[i], zobrist_hasher)',
         # complete: every allowed castling of the side to move was appended
         CMP + '''forall|t: CastlingType| right_color(t) == board.to_move && #[trigger] may_castle(board, t) ==>
@@ -77,6 +79,9 @@ GC = {
         SND + '''proof {
         let v = new_moves@; let lo = v0.len() as int;
         assert forall|i: int| lo <= i < v.len() implies castle_sound(board, #[trigger] &v[i]) by {
+            if i < v1.len() { assert(v[i] == v1[i]); } else if i < v2.len() { assert(v[i] == v2[i]); } else if i < v3.len() { assert(v[i] == v3[i]); }
+        }
+        assert forall|i: int| lo <= i < v.len() implies legal_position(#[trigger] &v[i]) by {
             if i < v1.len() { assert(v[i] == v1[i]); } else if i < v2.len() { assert(v[i] == v2[i]); } else if i < v3.len() { assert(v[i] == v3[i]); }
         }
     }''',
